@@ -55,8 +55,8 @@ fn parse_case(case: &str) -> (String, String) {
 
 fn enumerate_notes(tier: Tier, c10: bool, emit: &mut dyn FnMut(&str)) {
     let (n, depth) = match tier {
-        Tier::Quick => (3, 2),
-        Tier::Thorough => (4, 2),
+        Tier::Quick => (4, 2),
+        Tier::Thorough => (5, 2),
     };
     for owner in owners() {
         if c10 && owner != "1" {
@@ -181,7 +181,9 @@ fn prepare(case: &str) -> Option<Prepared> {
     // start from the formatted original so that line numbers are those of the text the user sees
     let fmt = p4(&state_of(&lib), &owner, "").ok()?;
     lib.insert(owner.clone(), fmt.clone());
+    // features of the text as written and of the formatted text the actions run on
     let mut feats = doc_features(&fmt);
+    feats.extend(doc_features(&raw));
     for l in scan_links(&fmt) {
         if l.alone_in_para && !is_external(&l.dest) {
             match resolve(&dir_of(&owner), &l.dest) {
@@ -220,8 +222,8 @@ impl Engine for C09 {
     }
     fn bound(&self, tier: Tier) -> String {
         match tier {
-            Tier::Quick => "forests <= 3 nodes, nesting <= 2, owners {1, d/5}".into(),
-            Tier::Thorough => "forests <= 4 nodes, nesting <= 2, owners {1, d/5}".into(),
+            Tier::Quick => "forests <= 4 nodes, nesting <= 2, owners {1, d/5}".into(),
+            Tier::Thorough => "forests <= 5 nodes, nesting <= 2, owners {1, d/5}".into(),
         }
     }
     fn assumptions(&self) -> Vec<String> {
@@ -418,8 +420,8 @@ impl Engine for C10 {
     }
     fn bound(&self, tier: Tier) -> String {
         match tier {
-            Tier::Quick => "forests <= 3 nodes, nesting <= 2".into(),
-            Tier::Thorough => "forests <= 4 nodes, nesting <= 2".into(),
+            Tier::Quick => "forests <= 4 nodes, nesting <= 2".into(),
+            Tier::Thorough => "forests <= 5 nodes, nesting <= 2".into(),
         }
     }
     fn assumptions(&self) -> Vec<String> {
